@@ -186,7 +186,39 @@ def only_dot_files_are_ignored(ctx):
     ctx.floor("name_based_returns", 2, "early returns of processDropInAdd / processDropInRemove taken before the file is looked at")
 
 
+def every_add_event_is_handed_on(ctx, tag):
+    """'Re-adding a tag replaces its previous content and moves it to the front' / 'converges to the files present': whether a file
+    event becomes an add request depends on the file alone - its name, whether it opens and parses - never on what the service remembers
+    about earlier events.  No return of FsDropInService::processDropInAdd that bypasses scheduleDropInAdd is conditioned on a data member
+    of the service (a memo of the text last scheduled, a set of tags seen): an identical re-add is a request like any other - the engine
+    answers it by moving the tag to the front."""
+    P, cg = ctx.prog, ctx.cg
+    f = ctx.use(ctx.fn1("Oomd::FsDropInService::processDropInAdd"))
+    sched = [i for i in f.calls("scheduleDropInAdd") if f.pos_of(i) is not None]
+    ctx.counters[tag + "_add_handovers"] = len(sched)
+    ctx.floor(tag + "_add_handovers", 1, "scheduleDropInAdd call in processDropInAdd")
+    fl = Flow(P, f, events={i: [("set", "handed")] for i in sched}, cg=cg)
+    X = Expander(P, f)
+    n = 0
+    for kind, node, b, parts in fl.exits():
+        if kind != "return" or node is None or all("handed" in st.must for st in parts.values()):
+            continue
+        n += 1
+        g = expanded_guards(P, f, fl, node, X)
+        # conditions the hand-over itself is under are on the way, not reasons for dropping the event
+        on_the_way = {x for i in sched for x in expanded_guards(P, f, fl, i, X)}
+        hist = [(k, p_) for k, p_ in g if isinstance(k, str) and (k, p_) not in on_the_way and re.search(r"this->(?!drop_in_dir_\b)\w+_\b", k)]
+        ctx.check(not hist, "%s:every-add-event-is-handed-on@%d" % (tag, f.nodes[node].get("line", 0)), "guarded_by (no service state), helpers followed", f.loc(node),
+                  "an add event is dropped only for reasons found in the file itself",
+                  "FsDropInService::processDropInAdd returns without scheduling the add under %s - a condition on what the service remembers from earlier "
+                  "events: a drop-in re-added with the same content is swallowed, so it neither replaces the previous one nor moves to the front" % hist[:2],
+                  witness_path(f, fl, node))
+    ctx.counters[tag + "_add_early_returns"] = n
+    ctx.floor(tag + "_add_early_returns", 2, "returns of processDropInAdd that bypass scheduleDropInAdd")
+
+
 def run(ctx):
+    every_add_event_is_handed_on(ctx, "C14")
     only_dot_files_are_ignored(ctx)
     watcher_descriptor_not_leaked_on_failure(ctx)
     from .C13 import compile_dropin_refuses_whole_unit
